@@ -72,6 +72,20 @@ def h_scratch(ctx, case):
                 planted += [name, os.path.join(name, 'other_run.txt')]
     fail = ctx.choice('failure', 4)     # 0 none, 1 worker, 2 env, 3 query
     cfg = ST.make_config(inp, work, **kw)
+    if ctx.flag('query_and_statistics_files_share_a_file_name'):
+        # the same file name in two directories (copies of the inputs)
+        import shutil
+        for key, sub in (('query_path', 'from_lab_a'),
+                         ('stats', 'from_lab_b')):
+            d = os.path.join(work['base'], sub)
+            os.makedirs(d)
+            p = os.path.join(d, 'data.h5ad')
+            if key == 'stats':
+                shutil.copy(cfg['precomputed_stats']['path'], p)
+                cfg['precomputed_stats'] = {'path': p}
+            else:
+                shutil.copy(cfg[key], p)
+                cfg[key] = p
     undo = None
     if fail == 3:
         # the query file cannot be read: the run fails and so does the
